@@ -3,6 +3,7 @@ CONSTANTS
   MaxOps = 3
   UnitKinds = {"set32", "set64", "getp", "getq"}
   MaxPos = 3
+  Sigs = {}
 INVARIANTS
   InOrderIsRecWalk
   PreOrderVisitsEachOnce
